@@ -134,7 +134,7 @@ int main() {
   std::ios::sync_with_stdio(false);
   std::string line;
   while (std::getline(std::cin, line)) {
-    watchdog(300);   // a corrupted structure may make the library loop: report instead of hanging the check
+    watchdog(60);   // a corrupted structure may make the library loop: report instead of hanging the check
     if (line.empty()) continue;
     std::cout << handle(split(line)) << "\n" << std::flush;
   }
